@@ -60,9 +60,31 @@ Theorem C11_reopen_restores : forall w,
 Proof. exact reopen_restores_proof. Qed.
 Print Assumptions C11_reopen_restores.
 
-(* the operation that closes may itself fail: save_as (also reached by Workspace.create and by the constructor on a new path)
-   closes the workspace and then raises when the target cannot be written.  The workspace is then exactly as after close():
-   closed, log intact, and open() restores access as in C11_reopen_restores. *)
+(* The operation that closes may itself fail: save_as (also reached by Workspace.create and by the constructor on a new path)
+   closes the workspace and then raises when the target cannot be written.
+
+   Where save_as can fail relative to the re-pointing of `_h5file` is modelled in [save_as_detail] (Model/Mode.v): with the code's
+   order (copy, then re-point) a failure of the checks or of the copy leaves a closed workspace whose `_h5file` still names the
+   file/buffer with the content, and open() succeeds ... *)
+Theorem C11_save_as_failure_keeps_pointer : forall f s,
+  sa_ptr s = true ->
+  let s1 := fst (save_as_detail CodeOrder (Some f) s) in
+  snd (save_as_detail CodeOrder (Some f) s) = Some EFail
+  /\ sa_handle s1 = Closed /\ sa_ptr s1 = true
+  /\ snd (sa_open s1) = None /\ sa_handle (fst (sa_open s1)) = Open RW.
+Proof. intros [|] [h p] P; simpl in *; subst p; repeat split. Qed.
+Print Assumptions C11_save_as_failure_keeps_pointer.
+
+(* ... whereas the variant that re-points before the copy does not have this property: REFUTED for that variant (witness: the
+   copy fails).  The driver's save_fault cases observe the pointer and the re-open on the implementation ([agree_sa]). *)
+Theorem C11_repoint_first_variant_refuted :
+  ~ (forall f s, sa_ptr s = true -> snd (sa_open (fst (save_as_detail RepointFirst (Some f) s))) = None).
+Proof. intros H. specialize (H FailCopy {| sa_handle := Open RW; sa_ptr := true |} eq_refl). discriminate H. Qed.
+Print Assumptions C11_repoint_first_variant_refuted.
+
+(* DEFINITIONAL on the op [SaveAsFail] of the main model (= the CodeOrder case above: close, then the error, pointer intact,
+   which is why [open_] can stay total there): it restates C11_reopen_restores for the world left by a failed save_as.  Its tie
+   to the code is the save_fault stream (correspondence + oracle), not this statement. *)
 Theorem C11_failed_save_as_recoverable : forall w,
   close_fault w = false ->
   let w1 := fst (step w SaveAsFail) in
@@ -78,6 +100,20 @@ Proof.
   cbv zeta. rewrite E. repeat split; try assumption. rewrite <- E. exact H.
 Qed.
 Print Assumptions C11_failed_save_as_recoverable.
+
+Example C11_failed_save_as_nonvacuous :
+  let wr f b := {| c_fn := f; c_writer := true; c_req := RW; c_fails := false; c_repack := b |} in
+  let w := {| handle_of := Open RW; defmode := RW; file := ["H5Writer.save_entity"; "H5Writer.write_data_values"]; locked := false;
+              close_fault := false; repack := true; ncat := 1; in_mem := true |} in
+  close_fault w = false
+  /\ step w SaveAsFail =
+       ({| handle_of := Closed; defmode := RW;
+           file := ["H5Writer.save_entity"; "H5Writer.write_data_values"; "H5Writer.update_field"; "H5Writer.clear_stats_cache";
+                    "H5Writer.save_entity"];
+           locked := false; close_fault := false; repack := true; ncat := 1; in_mem := true |}, Some EFail)
+  /\ handle_of (fst (open_ None (fst (step w SaveAsFail)))) = Open RW
+  /\ snd (io_calls (fst (open_ None (fst (step w SaveAsFail)))) [wr "H5Writer.update_field" false]) = None.
+Proof. cbv zeta. split; [reflexivity|]. split; [vm_compute; reflexivity|]. split; vm_compute; reflexivity. Qed.
 
 (* PARTIAL (as far as the model carries it): in a block of plain operations on a writable workspace, the writer routines of
    every operation that completed before the exit are in the file, in order, followed by the concatenator refresh that close
@@ -114,13 +150,13 @@ Example C11_nonvacuous :
   let wr f b := {| c_fn := f; c_writer := true; c_req := RW; c_fails := false; c_repack := b |} in
   let ops := [Calls [wr "H5Writer.save_entity" false]; Calls [rd; wr "H5Writer.update_field" true; wr "H5Writer.clear_stats_cache" false];
               Calls [wr "H5Writer.remove_entity" false]] in
-  let w := {| handle_of := Open RW; defmode := RW; file := []; locked := false; close_fault := false; repack := false; ncat := 1 |} in
+  let w := {| handle_of := Open RW; defmode := RW; file := []; locked := false; close_fault := false; repack := false; ncat := 1; in_mem := false |} in
   forallb is_calls ops = true /\ forallb op_total ops = true
   /\ with_block ops 2 w =
        ({| handle_of := Closed; defmode := RW;
            file := ["H5Writer.save_entity"; "H5Writer.update_field"; "H5Writer.clear_stats_cache";
                     "H5Writer.update_field"; "H5Writer.clear_stats_cache"; "H5Writer.save_entity"];
-           locked := false; close_fault := false; repack := false; ncat := 1 |}, Some EInjected)
+           locked := false; close_fault := false; repack := false; ncat := 1; in_mem := false |}, Some EInjected)
   /\ step (fst (with_block ops 2 w)) (Calls [rd]) = (fst (with_block ops 2 w), Some EClosed).
 Proof.
   cbv zeta. split; [vm_compute; reflexivity|]. split; [vm_compute; reflexivity|]. split; vm_compute; reflexivity.
